@@ -852,7 +852,11 @@ P_req(s, f) ==
                        IF r = 3 THEN Reply(Goto(DropKids(s, f), f, "z"), cid, q.mid, "error", 5)
                        ELSE Reply(Goto(DropKids(s, f), f, "z"), cid, q.mid, "ok", 0)
     [] fr.pc = "d" ->      \* add / rm: Arbiter.add_watcher / rm_watcher, both synchronized
-         IF s.restarting \/ s.slot # "" THEN Reply(GotoZ(s, f, 0), cid, q.mid, "error", 5)
+         \* endpoint-owner mode (ipc endpoint + endpoint_owner): AddWatcher.execute refuses, before anything else, an add
+         \* whose `uid` option is not the endpoint owner (MessageError)
+         IF q.cmd = "add" /\ ("eom" \in DOMAIN s.cfg /\ s.cfg.eom) /\ q.adduid # "owner"
+         THEN Reply(GotoZ(s, f, 0), cid, q.mid, "error", 3)
+         ELSE IF s.restarting \/ s.slot # "" THEN Reply(GotoZ(s, f, 0), cid, q.mid, "error", 5)
          ELSE IF q.cmd = "rm"
          THEN CallN(SetA([s EXCEPT !.slot = "arbiter_rm_watcher"], f, i), f, "x3", "rm", i, 0, IF q.nostop THEN 1 ELSE 0, 0, "")
          ELSE IF ByName(s, q.lname) # {} THEN Reply(GotoZ(s, f, 0), cid, q.mid, "error", 5)      \* AlreadyExist
@@ -1015,7 +1019,7 @@ QuitReq == [cmd |-> "quit", name |-> "", lname |-> "", hasname |-> FALSE, mid |-
             nb |-> 1, G |-> -1, nostop |-> FALSE, graceful |-> TRUE, sequential |-> FALSE, raw |-> FALSE,
             start |-> FALSE, addnp |-> 1, addG |-> 1, addW |-> 0, addsing |-> FALSE, nopts |-> 1, pattern |-> FALSE,
             opts |-> <<>>, matches |-> <<>>, file |-> <<>>, plan |-> [chg |-> <<>>, del |-> <<>>, add |-> <<>>],
-            rovalid |-> TRUE]
+            rovalid |-> TRUE, adduid |-> "none"]
 
 Dispatch(s, f, ob) ==
   LET fn == s.fr[f].fn IN
